@@ -6,7 +6,7 @@ PROPS = {
         "clauses": ["C20.lin", "C20.quota", "C20.race", "C20.seq"],
         "level": "model_checking",
         "rule": "every schedule (preemption bound 2 quick / 3 thorough) of 2-3 client threads + reader (+ clock tick) "
-                "through the real limiter middleware; every Inc sequence to depth 5/6 over 3 addresses x 3 time steps",
+                "through the real limiter middleware; every Inc sequence to depth 5/6 over 3 addresses x 3 time steps; scenarios also cover one address spelt in several ways, IPv4-mapped addresses, overlapping white-list blocks, an X-Forwarded-For list, the limiter log file",
         "assumptions": ["goroutines are serialised by the vrt scheduler; scheduling points at mutex operations and harness request boundaries",
                         "data races are decided by a vector-clock detector on rewritten struct-field accesses",
                         "porcupine v1.3.0 decides linearizability of each recorded history"],
@@ -17,7 +17,7 @@ PROPS = {
         "level": "model_checking",
         "rule": "io.Reader answers are explorer choices: every fragmentation of 6-7 small synthetic box streams x initial buffer sizes, "
                 "every truncation x every buffer size, every injected error position, realistic init/chunked streams with <=2/3 "
-                "deviations from the full answer, impossible size fields in every box position",
+                "deviations from the full answer, impossible size fields in every box position; callback errors of several identities (sentinel, io.EOF, io.ErrUnexpectedEOF, wrapped EOF), empty reads",
         "assumptions": ["streams are built from the bundled chunkparser testdata and synthetic 8-10 byte boxes",
                         "termination is decided by a 20 s watchdog on operations that take microseconds"],
     },
@@ -89,7 +89,7 @@ PROPS = {
         "level": "model_checking",
         "rule": "status codes: cycle {1..13,30,60} x rsq {0..cycle/minSeg+2} x code {404,410,503,599} x rep filter {*, video, audio, two patterns} x every video+audio segment over 2*lcm(cycle,loop) s "
                 "x start {0,900} x snr {unset,7} x {Number,Time} on constant- and variable-duration assets (quick: every 4th pattern); "
-                "traffic: all 1884 patterns of <= 3 intervals over {u,d,s,h}x{1,2,3} s (quick: every 5th 3-interval pattern), two BaseURLs, every second of two cycles, on the vrt virtual clock",
+                "traffic: all 1884 patterns of <= 3 intervals over {u,d,s,h}x{1,2,3} s (quick: every 5th 3-interval pattern), two BaseURLs, every second of two cycles, on the vrt virtual clock; cycles 31 and 120 (longer than the time-shift window), tsbd_10, and subtitles / thumbnails / generated subtitles under every pattern",
         "assumptions": ["a representation filter matches by the representation id", "slow/hang delays are observed on the virtual clock (zero-time computation)"],
     },
     "C13": {
@@ -98,7 +98,7 @@ PROPS = {
         "level": "model_checking",
         "rule": "(i) every segment of 27 h of stream time (PTS wrap) x 11 segment durations (1..10 s, 1.92, 2.002, 3.84) x N {1,2,3} through the real CreateEmsgAhead (quick: 1 h + 20 min around the wrap); "
                 "(ii) every video/audio/text segment of 6 min after start and 6 min around the PTS wrap over HTTP on bundled + generated assets x N x {Number,Time}; "
-                "own splice_info_section parser + MPEG-2 CRC-32",
+                "own splice_info_section parser + MPEG-2 CRC-32; a window at present-day media times; a 10 MHz video timescale",
         "assumptions": ["the carrier may contain the announce instant at either end of its interval"],
     },
     "C06": {
@@ -135,7 +135,7 @@ PROPS = {
         "level": "model_checking",
         "rule": "video+audio representations x ato {seg-1 sample, 3/4, 1/2, 1/4, 1/8 seg} x {clear, eccp_cenc, eccp_cbcs} x start {0,1.7e9} x segment indices {0,1,N-1,N,7N+1} "
                 "x request instants {advertised availability -1/0/+1 ms, every chunk boundary +-1 ms, after the end} x client-stall choices (one Flush may block 300 ms; <=1 deviation, all positions); "
-                "handler time bound to the vrt virtual clock, ResponseWriter records the virtual instant of every Write",
+                "handler time bound to the vrt virtual clock, ResponseWriter records the virtual instant of every Write; subtitles, thumbnails and generated subtitles in low-latency mode against whole-segment mode; variable frame rate and 10 MHz timescale layouts",
         "assumptions": ["zero-time computation: only sleeps and client stalls advance the clock", "the chunk end is compared on the millisecond grid of the clock (floor)"],
     },
     "C11": {
@@ -144,7 +144,7 @@ PROPS = {
         "level": "model_checking",
         "rule": "handler level: patch_{10,60} x {Timeline-Time, Timeline-Number} x {one period, periods_60} x tsbd {60,7} x start {0,1.7e9+40} x assets incl. 2.002 s, 1.5 s and 4/8 s segments: "
                 "all pairs t1<=t2 of availability instants (+-1 ms) within ttl + 2 segments; diff level: every tree reachable by <=1 (quick) / <=2 (thorough) edits from a family of id-carrying MPD-like trees; "
-                "oracle: independent RFC 5261 applier, canonical XML equality",
+                "oracle: independent RFC 5261 applier, canonical XML equality; variants with stop_, ato_, a clock offset (timeoffset_) and the other bundled MPDs (thumbnails, subtitles); lexical forms of ttl at the diff level",
         "assumptions": ["an <add> whose selector ends in /@name is read as an attribute addition", "pairs whose MPD(t1) is not the document identified by its publishTime are classified as consequences of the C05 finding (stale-base)"],
     },
     "C15": {
@@ -163,7 +163,7 @@ PROPS = {
         "level": "model_checking",
         "rule": "7 scenarios (2-3 concurrent first uploads of distinct tracks of a new channel, init+media, two channels, existing channel, authentication + per-representation config, media of two tracks): "
                 "every interleaving with <= 2 (quick) / 3 (thorough) preemptions over RWMutex, channel send/receive and goroutine spawn operations of the real receiver; "
-                "vector-clock race detection on rewritten struct-field accesses; final state compared with the final states of all sequential orders",
+                "vector-clock race detection on rewritten struct-field accesses; final state compared with the final states of all sequential orders; further scenarios: burst at the channel-start instant under both canonical thread orders, two segments of one track, a receiver restarted on existing storage, raw mode",
         "assumptions": ["file system operations are atomic steps of the running thread", "accesses inside mp4ff / dash-mpd are not hooked (only the receiver's own struct fields are)"],
     },
     "C17": {
@@ -172,7 +172,7 @@ PROPS = {
         "level": "model_checking",
         "rule": "(A) every interleaving (per-track order kept) of [init, m0..m(M-1)] for track sets {v,a}x3, {v,a,text}x2, {v,v2}x3 (thorough adds {v,a,text}x3, {v,v2,a}x3, {v,a}x5) from the empty receiver; "
                 "(B) breadth-first search by replay to depth 4/5 after a canonical start-up over upload(track, k), k in {next, next+1, next-1, next+3, next-3} (gaps, duplicates, late and jumping numbers), "
-                "states deduplicated by generator counters, buffers, master parameters, file listing and MPD hash; after every upload the channel goroutine runs to quiescence under the vrt scheduler",
+                "states deduplicated by generator counters, buffers, master parameters, file listing and MPD hash; after every upload the channel goroutine runs to quiescence under the vrt scheduler; one track set with every media segment uploaded as two chunks",
         "assumptions": ["media segments beyond the six bundled ones are the bundled ones with rewritten sequence number and decode time", "timeShiftBufferDepth 8 s with 3.84 s segments (window of 4)"],
     },
     "C16": {
@@ -181,7 +181,7 @@ PROPS = {
         "level": "model_checking",
         "rule": "for every (configuration, API program) scenario: every thread schedule and receiver-answer sequence with at most 1 (quick) / 2 (thorough) deviations (preemptions + non-200/slow answers) of the real cmafIngesterMgr + REST handlers + session goroutines under the vrt scheduler on the virtual clock; "
                 "configurations {Number, SegmentTimeline-time, SegmentTimeline-number} x {per-segment URLs, Streams()} x {plain, imsc1 subtitle tracks, generated stpp subtitles, chunked low-latency} x {no credentials, user+password, user only}; "
-                "programs: k steps (k=0..3/4) at several testNowMS, steps with concurrent DELETE, steps with concurrent info calls, two concurrent sessions, real-time with DELETE after 1/5/7.3 s, real-time and step mode with duration 4/6 s",
+                "programs: k steps (k=0..3/4) at several testNowMS, steps with concurrent DELETE, steps with concurrent info calls, two concurrent sessions, real-time with DELETE after 1/5/7.3 s, real-time and step mode with duration 4/6 s; two configurations on the bundled asset with alternating 4 s / 8 s segments (numbers and instants from the reference model)",
         "assumptions": ["the receiver is an in-process http.RoundTripper: it reads the whole body, then answers; TCP-level behaviour of net/http is not modelled", "asset testpic_2s (2 s segments)"],
     },
     "C07": {
@@ -193,7 +193,7 @@ PROPS = {
                 "H1 explicit-state search over request histories keyed by a deep digest of all state reachable from the asset manager and the server configuration (every request from every reachable state); "
                 "H2 every ordered pair on a long-running server against the answer of a fresh server; "
                 "S every ordered pair as two threads under the vrt scheduler with scheduling points at locks, pool operations and response writes, at most 1 (quick) / 2 (thorough) deviations, vector-clock race detection on all struct fields of the module; "
-                "M every request under sorted, reversed and every single rotated map iteration order; I cache-loaded instance against scanning instance",
+                "M every request under sorted, reversed and every single rotated map iteration order; I cache-loaded instance against scanning instance; part N: a VoD root with an asset directory inside another, a sibling whose name extends another, and an MPD with UTCTiming elements of its own - both iteration orders of the asset table, every ordered pair of requests against fresh answers, utc_ requests concurrently; in-place appends to field slices are accesses (vrt.SA)",
         "assumptions": ["the state digest covers what is reachable from Server.assetMgr and Server.Cfg; templates, routers and the limiter are outside it (H2 does not depend on the digest)",
                         "race detection covers struct fields of the module's own types (not the contents of byte slices, which are covered by the response comparison)"],
     },
